@@ -35,7 +35,7 @@ CHK_MODULE = "Check.Chk_C20"
 CASE_TYPE = "Chk_C20.case"
 CHECK_FN = "Chk_C20.check_case"
 HEADER = "From Ropt Require Import Model.Pipe Gen.Generated."
-SHARD_SIZE = 60
+SHARD_SIZE = 8
 PARALLEL = True
 CASE_TIMEOUT = 150
 EXHAUSTIVE = {"quick": False, "thorough": False}
@@ -398,7 +398,7 @@ def run_impl(case: dict) -> dict:
     wire = json.loads(json.dumps(dump1, cls=_np_encoder()))
     dump2 = EnOptConfig.model_validate(wire).model_dump(round_trip=True)
     cfg_digest = "cfg:" + _digest(bitify(wire))
-    cfg_roundtrip = "cfg:" + _digest(bitify(json.loads(json.dumps(dump2, cls=_np_encoder())))) == cfg_digest
+    cfg_roundtrip = _same_config(wire, json.loads(json.dumps(dump2, cls=_np_encoder())))
 
     inproc = _run_once(case, external=False, deadline=INPROC_DEADLINE_S)
 
@@ -438,7 +438,6 @@ def run_impl(case: dict) -> dict:
         limit = _process_timeout() + EXTRA_WALL_S
         external = _run_once(case, external=True, deadline=limit + 5)
         t_end = time.time()
-        # the child must be gone when the step returns: allow the OS a moment to deliver the exit
         alive = False
         started = pidfile.exists()
         if started:
@@ -447,11 +446,8 @@ def run_impl(case: dict) -> dict:
             except ValueError:
                 pid = None
         if pid is not None:
+            # checked at once: on return the parent has polled / waited for the child, so it is already reaped
             alive = _pid_alive(pid)
-            t1 = time.time()
-            while alive and time.time() - t1 < 0.5:
-                time.sleep(0.05)
-                alive = _pid_alive(pid)
         leftovers = sorted(str(p.relative_to(fifo_root)) for p in fifo_root.rglob("*"))
         cw_all = _read_wire(clog)
         external.update({
@@ -476,6 +472,25 @@ def run_impl(case: dict) -> dict:
         shutil.rmtree(scratch, ignore_errors=True)
     return {"cfg_roundtrip": bool(cfg_roundtrip), "cfg_digest": cfg_digest, "inproc": inproc, "ext": external,
             "process_timeout_ms": int(_process_timeout() * 1000)}
+
+
+# sections of the configuration the optimizer in the child reads: they must survive the pipe bit by bit;
+# elsewhere (weights that are re-normalised on validation, only used in the parent) 1e-12 relative is enough
+EXACT_SECTIONS = ("variables", "optimizer", "linear_constraints", "nonlinear_constraints")
+
+
+def _same_config(a, b, path: tuple = ()) -> bool:
+    if isinstance(a, dict) and isinstance(b, dict):
+        return list(a) == list(b) and all(_same_config(a[k], b[k], path + (k,)) for k in a)
+    if isinstance(a, list) and isinstance(b, list):
+        return len(a) == len(b) and all(_same_config(x, y, path) for x, y in zip(a, b))
+    if isinstance(a, float) and isinstance(b, float):
+        if bits(a) == bits(b):
+            return True
+        if path and path[0] in EXACT_SECTIONS:
+            return False
+        return abs(a - b) <= 1e-12 * max(1.0, abs(a))
+    return type(a) is type(b) and a == b
 
 
 def _np_encoder():
